@@ -277,13 +277,14 @@ Fixpoint zip3 {A B C} (a : list A) (b : list B) (c : list C) : list (A * B * C) 
 Fixpoint indexed {A} (i : nat) (l : list A) : list (nat * A) :=
   match l with [] => [] | x :: r => (i, x) :: indexed (S i) r end.
 
-Definition traces_match (reentrant : bool) (rows : list (nat * (list op * list point * bool))) : bool :=
-  forallb (fun r => let '(t, (ops, obs, done)) := r in
+Definition row := (nat * (list op * list point * bool))%type.
+Definition traces_match (reentrant : bool) (rows : list row) : bool :=
+  forallb (fun r : row => let '(t, (ops, obs, done)) := r in
                     let m := points_of (p_thread reentrant t ops) in
                     if done then eq_points obs m else prefix_points obs m) rows.
 
-Definition stuck_config (rows : list (nat * (list op * list point * bool))) : state :=
-  map (fun r => let '(t, (ops, obs, done)) := r in
+Definition stuck_config (rows : list row) : state :=
+  map (fun r : row => let '(t, (ops, obs, done)) := r in
                 if done then mkT [] false [] else advance (length obs) [] (p_thread true t ops)) rows.
 
 Definition check_case (c : case) : verdict :=
@@ -295,7 +296,7 @@ Definition check_case (c : case) : verdict :=
       if forallb (fun d => d) dones
       then (if traces_match false rows || traces_match true rows then VOk else VModelMismatch)
       else (* hung: a deadlock of the real code *)
-        let off_ok := forallb (fun r => let '(t, (ops, _, _)) := r in
+        let off_ok := forallb (fun r : row => let '(t, (ops, _, _)) := r in
                                         ok_thread (start (map fst (p_thread false t ops)))) rows in
         if traces_match true rows && deadlocked (stuck_config rows) && off_ok then VKnown 1 else VSpecFail
   end.
